@@ -238,11 +238,45 @@ Section RT.
     - constructor; [auto|apply IH].
   Qed.
 
+  (* every character of the path field is harmless for the line reader *)
+  Lemma sepcat_safe : forall strs, Forall (fun x => forallb safec x = true) strs ->
+    forallb safec (scat strs) = true.
+  Proof.
+    induction strs as [|a r IH]; intros H; [reflexivity|].
+    inversion H as [|? ? Ha Hr]; subst. cbn [sepcat]. destruct r as [|b r'].
+    - rewrite forallb_app, Ha. reflexivity.
+    - rewrite forallb_app, Ha. cbn [forallb andb]. rewrite (IH Hr). reflexivity.
+  Qed.
+
+  Lemma pstr_safe q : forallb safec (pstr q) = true.
+  Proof.
+    unfold pt_str. rewrite forallb_app. cbn [forallb]. rewrite !(f32_safe _ _ _ Hfmt). reflexivity.
+  Qed.
+
+  Lemma lstr_safe t : forallb safec (lstr t) = true.
+  Proof.
+    rewrite lstr_eq. unfold pt_letter.
+    destruct (pt_kind t =? sk_bspline).
+    - destruct (pt_degree t); cbn [forallb]; rewrite ?(int_safe _ _ _ Hfmt); reflexivity.
+    - destruct (pt_kind t =? sk_catmull); [reflexivity|].
+      destruct (pt_kind t =? sk_perfect); reflexivity.
+  Qed.
+
+  Lemma enc_strs_safe : forall l i pp p last,
+    Forall (fun x => forallb safec x = true) (enc_strs fmt_f64 fmt_f32 fmt_int P i pp p last l).
+  Proof.
+    induction l as [|z r IH]; intros i pp p last; [constructor|].
+    cbn [enc_strs]. destruct (snd z) as [t|].
+    - destruct (explicit i pp p last t); repeat (constructor; [first [apply pstr_safe|apply lstr_safe]|]); apply IH.
+    - constructor; [apply pstr_safe|apply IH].
+  Qed.
+
   (* ---------- T02c on integer control points ---------- *)
 
   Theorem zpath_round_trip zs :
     zimage P zs = true -> zd13 zs = false -> zd17 zs = false -> zcc zs = false ->
     exists s, rline (path_toks (ipos P) (map icp zs)) = s ++ [comma] /\ memb comma s = false /\
+              forallb safec s = true /\
               path_spec s (ipos P) = (map icp zs, true).
   Proof.
     intros Him H13 H17 Hcc.
@@ -261,6 +295,10 @@ Section RT.
     { constructor; [|apply enc_strs_no_sep].
       split; apply (lstr_no _ _ _ Hfmt); reflexivity. }
     exists s. split; [etransitivity; [exact Hrender|exact E1]|]. split; [exact E2|].
+    split.
+    { pose proof (sepcat_safe (lstr t0 :: enc_strs fmt_f64 fmt_f32 fmt_int P 1 (0, 0) (0, 0) t0 r)
+                    (Forall_cons _ (lstr_safe t0) (enc_strs_safe r 1%nat (0, 0) (0, 0) t0))) as Hs.
+      rewrite E1, forallb_app in Hs. apply andb_true_iff in Hs. exact (proj1 Hs). }
     unfold path_spec. rewrite E3, enc_strs_segment.
     destruct (segment_good r 1%nat 1%nat (0, 0) (0, 0) t0 (le_n 1) (le_n 1) Hinv H17 Hcc H13) as (C & I & G).
     { intros Hc _. destruct r as [|z' r']; [exact Logic.I|]. rewrite Hc in H13h. rewrite zeq_sym. exact H13h. }
@@ -327,13 +365,14 @@ Section RTpcp.
     path_image pos cps = true ->
     d13_class cps = false -> d17_class cps = false -> consec_catmull cps = false ->
     exists s, rline (path_toks pos cps) = s ++ [comma] /\ memb comma s = false /\
+              forallb safec s = true /\
               path_spec s pos = (cps, true) /\
               forall vs, exists vs', convert_path_str (mkPB [] vs) s pos = Done (mkPB cps vs', Ok).
   Proof.
     intros Him H13 H17 Hcc.
     destruct (path_image_int pos cps Him) as (HP & Epos & Ecps & Hz).
     destruct (zpath_round_trip fmt_f64 fmt_f32 fmt_int Hfmt H32 (zpt pos) HP (map zcp cps) Hz H13 H17 Hcc)
-      as (s & E1 & E2 & E3).
+      as (s & E1 & E2 & Es & E3).
     rewrite <- Ecps, <- Epos in E1, E3.
     exists s. repeat split; try assumption.
     intros vs. destruct (convert_path_str_spec (mkPB [] vs) s pos) as [V HV].
